@@ -123,6 +123,27 @@ pub fn decode(s: &Sch, b: &[u8], pos: &mut usize) -> Option<V> {
     })
 }
 
+/// `Some` positions of a Vec<Option<_>> message (None if the phase has
+/// another shape or the bytes do not decode).
+pub fn some_positions(phase: &str, data: &[u8]) -> Option<Vec<usize>> {
+    let s = schema(phase)?;
+    match &s {
+        Sch::Seq(inner) if matches!(**inner, Sch::Opt(_)) => {}
+        _ => return None,
+    }
+    match decode_all(&s, data)? {
+        V::Seq(items) => Some(
+            items
+                .iter()
+                .enumerate()
+                .filter(|(_, v)| matches!(v, V::Opt(Some(_))))
+                .map(|(i, _)| i)
+                .collect(),
+        ),
+        _ => None,
+    }
+}
+
 pub fn decode_all(s: &Sch, b: &[u8]) -> Option<V> {
     let mut pos = 0;
     let v = decode(s, b, &mut pos)?;
